@@ -578,6 +578,58 @@ func Run(opt Options, own, used []*Module, all []*Module) *RunResult {
 		}(j)
 	}
 	wg.Wait()
+	// Second chance, per query: a result that is neither a proof nor a definite counterexample (unknown, timeout, or a
+	// ground-stage model of an instantiated query whose quantified stage was inconclusive) is tried again with triple
+	// timeouts - unless the obligation already has a definite counterexample on another path. Bounded by a wall-clock budget.
+	{
+		definite := map[*sym.Obligation]bool{}
+		for _, j := range jobs {
+			if j.res.Status == "sat" && !j.res.Weak {
+				definite[j.obl] = true
+			}
+		}
+		expected := map[string]bool{} // clauses recorded with a known finding are expected to fail in the finding's region
+		for _, j := range jobs {
+			if j.obl.Full != "" {
+				expected[j.obl.Full] = true
+			}
+		}
+		var again []*job
+		for _, j := range jobs {
+			canary := strings.HasSuffix(j.obl.Name, "#canary") || strings.HasSuffix(j.obl.Name, "#axioms-consistent") || kindOf(j.obl.Name) == "cover"
+			if canary || j.res.Status == "unsat" || j.res.Status == "error" || definite[j.obl] || expected[j.obl.Name] {
+				continue
+			}
+			again = append(again, j)
+		}
+		if len(again) > 0 {
+			budget := 4 * time.Minute
+			if opt.Tier == "thorough" {
+				budget = 20 * time.Minute
+			}
+			deadline := time.Now().Add(budget)
+			fmt.Printf("retrying %d undecided quer(ies) with timeout %v (budget %v), first: %s\n", len(again), 3*timeout, budget, again[0].q.Name)
+			var wg2 sync.WaitGroup
+			for _, j := range again {
+				wg2.Add(1)
+				go func(j *job) {
+					defer wg2.Done()
+					sem <- struct{}{}
+					defer func() { <-sem }()
+					if time.Now().After(deadline) {
+						return
+					}
+					o := smt.Options{Timeout: 3 * timeout, QuantTimeout: 3 * timeout / 2, DumpDir: opt.DumpDir, Seed: opt.Seed + 1}
+					r2 := smt.Check(j.q, o)
+					r2.Seconds += j.res.Seconds
+					if r2.Status == "unsat" || (r2.Status == "sat" && !r2.Weak) || j.res.Status != "sat" {
+						j.res = r2
+					}
+				}(j)
+			}
+			wg2.Wait()
+		}
+	}
 	// aggregate per obligation, in generation order
 	var order []*sym.Obligation
 	byObl := map[*sym.Obligation][]*job{}
